@@ -1380,7 +1380,7 @@ def _cbrtf(a):
 
 def _absf(a):
     a = _num(a)
-    return abs(a)
+    return _py_abs(a)
 
 
 def _maxf(a, b):
